@@ -44,6 +44,11 @@ def gen_links(rng, nlinks=None, tiny=False):
     return out
 
 
+def serial_of(seed):
+    """the serial number the harness gives the link made from this seed (as ov_serialnumber reports it: sign-extended 32 bits)"""
+    return seed - (1 << 31) if seed % 5 == 3 else 1000 + seed % 100000
+
+
 def gen_splits(rng, links, p=0.45):
     """legal re-pagination: cut pages inside their first packet (harness op pagedamage 15/16), so that pages without a granule position
     and 'continued' pages occur — also as the first audio page of a link.  A page whose first packet is shorter than 255 bytes stays."""
